@@ -248,6 +248,8 @@ def op_mc(case, pm):
             compile(src, fn, 'exec', dont_inherit=True)
         except Exception as e:
             return {'status': 'skip', 'reason': 'parses-but-does-not-compile'}
+        if has_bare_starred(tree):
+            return {'status': 'skip', 'reason': 'parser accepts a bare (*a), compiler rejects it'}
         res['skeleton'] = skeleton_hash(tree)
     try:
         out = pm.minify(src, **make_kwargs(pm, opts))
